@@ -53,6 +53,8 @@ from typing import (Any, Optional, Union, List, Dict, Tuple, Type, Callable, Lit
 from typing_extensions import reveal_type, Unpack
 class A: ...
 class B(A): ...
+class TimeoutError(Exception): ...      # these two shadow builtins: a name in a string annotation must mean
+class Warning: ...                      # the module's class (module globals before builtins)
 NT = NewType("NT", int)
 class TD(TypedDict):
     a: int
@@ -327,7 +329,8 @@ def judge_annotations(check: core.Check, cases: list[dict], label: str) -> dict[
 
 # --------------------------------------------------------------------------- part B: def headers
 
-_GOOD_ARG = {"noann": "1", "int": "1", "str": '"s"', "A": "A()", "Optional[int]": "None", "list[int]": "[1]", "T": "1", "None": "None"}
+_GOOD_ARG = {"noann": "1", "int": "1", "str": '"s"', "A": "A()", "Optional[int]": "None", "list[int]": "[1]", "T": "1", "None": "None",
+             "TimeoutError": "TimeoutError(1.5)"}
 _BAD_ARG = 'b"x"'
 
 
@@ -487,7 +490,7 @@ def observe_headers(arg: tuple[int, list[dict]]) -> list[dict]:
                     sig = getattr(iv, "signature", None)
                     sigdef[sig_line[node.lineno]] = describe_signature(sig) if sig is not None else describe_value(iv)
             # the importing module
-            names = ", ".join(["A"] + [f"h_{i}" for i, _ in group])
+            names = ", ".join(["A", "TimeoutError"] + [f"h_{i}" for i, _ in group])
             m = _Src(f"from typing_extensions import reveal_type\nfrom {dmod.__name__} import {names}\n")
             want_i: dict[int, tuple] = {}
             for i, c in group:
@@ -622,6 +625,7 @@ def run(check: core.Check) -> None:
     if not {"star", "final", "literal"} <= fixed:     # with every annotation deviation repaired the strict property holds
         _sensitivity("Annotations", "Annotations.strict.cfg", "AnnotationRoutesAgreeStrict")
     _sensitivity("Annotations", "Annotations.bug.cfg", "AnnotationRoutesAgree")
+    _sensitivity("Annotations", "Annotations.bug2.cfg", "AnnotationRoutesAgree")
     check.cov["model_cases_annotations"] = len(cases)
     exhaustive_a = len(cases) <= limit
     if not exhaustive_a:
@@ -652,6 +656,7 @@ def run(check: core.Check) -> None:
     check.add_tlc(("exhaustive+emit:" if quick else "exhaustive:") + hcfg, hres)
     _sensitivity("DefHeaders", "DefHeaders.strict.cfg", "HeaderViewsAgreeStrict")
     _sensitivity("DefHeaders", "DefHeaders.bug.cfg", "HeaderViewsAgree")
+    _sensitivity("DefHeaders", "DefHeaders.bug2.cfg", "HeaderViewsAgree")
     if quick:
         hcases = core.emitted_json(hres)
     else:   # the thorough model check covers <= 3 parameters; the replay takes the richer 2-parameter vocabulary
@@ -683,7 +688,8 @@ def run(check: core.Check) -> None:
     }
     check.cov["sensitivity"] = (
         "AnnotationRoutesAgreeStrict / HeaderViewsAgreeStrict are violated on the model (the named deviations are real); "
-        "with BugOptionalDropsNone (string route forgets None in Optional[X]) and BugRuntimeIgnoresKwDefaults the ordinary "
+        "with BugOptionalDropsNone (string route forgets None in Optional[X]), BugBuiltinsFirst (names in string annotations "
+        "of function objects looked up in builtins before the module) and BugRuntimeIgnoresKwDefaults the ordinary "
         "invariants are violated"
     )
     check.cov["rule"] = (
